@@ -284,6 +284,13 @@ func (env *SpecEnv) evalIdent(name string) (Val, error) {
 		r.NN = true
 		return r, nil
 	}
+	if ty, ok := e.L.specs.GhostVars[name]; ok {
+		T, err := e.L.resolveType(env.pkg, ty)
+		if err != nil {
+			return Val{}, err
+		}
+		return Val{T: T, S: e.heapGet(env.st, "X:"+name, scalarSort(T))}, nil
+	}
 	if env.pkg != nil {
 		return env.evalPkgMember(env.pkg, name)
 	}
@@ -649,6 +656,25 @@ func (env *SpecEnv) evalCall(x *SExpr) (Val, error) {
 				return Val{}, err
 			}
 			return env.same(a, b)
+		case "addr":
+			// address of an aggregate-typed field: addr(x.f)
+			if args[0].Op != "sel" {
+				return Val{}, fmt.Errorf("addr() needs a field selection")
+			}
+			o, err := env.eval(args[0].Args[0])
+			if err != nil {
+				return Val{}, err
+			}
+			pt, ok := o.T.Underlying().(*types.Pointer)
+			if !ok {
+				return Val{}, fmt.Errorf("addr(): owner is not a pointer")
+			}
+			obj, path, _ := types.LookupFieldOrMethod(o.T, true, env.pkgFor(o.T), args[0].Tok)
+			fv, ok := obj.(*types.Var)
+			if !ok || len(path) != 1 || !isAggregate(fv.Type()) {
+				return Val{}, fmt.Errorf("addr(): %s is not a direct aggregate field", args[0])
+			}
+			return Val{T: types.NewPointer(fv.Type()), S: subRef(o.S, pt.Elem(), fv.Name()), NN: true}, nil
 		case "disjoint":
 			// two slices do not share a backing array
 			a, err := env.eval(args[0])
@@ -759,6 +785,13 @@ func (env *SpecEnv) convert(a Val, T types.Type) (Val, error) {
 		a.T = T
 		return a, nil
 	}
+	if _, isIface := T.Underlying().(*types.Interface); isIface {
+		if _, already := a.T.Underlying().(*types.Interface); already {
+			a.T = T
+			return a, nil
+		}
+		return env.e.boxTerm(a, T), nil
+	}
 	return Val{}, fmt.Errorf("conversion %s -> %s", a.T, T)
 }
 
@@ -842,6 +875,16 @@ var tokOf map[string]tokenT
 // havocLoc: havoc the heap location denoted by an lvalue expression (modifies clause).
 func (env *SpecEnv) havocLoc(x *SExpr, st *State) error {
 	e := env.e
+	if x.Op == "call" && x.Args[0].Op == "id" && x.Args[0].Tok == "ghost" && len(x.Args) == 2 {
+		// all cells of a ghost field
+		k := "X:" + x.Args[1].String()
+		if srt, known := e.keySort[k]; known {
+			st.heap[k] = e.fresh("Hmod_"+k, srt)
+		} else {
+			e.pendingHavoc(st, k)
+		}
+		return nil
+	}
 	if T, ok := env.typeClause(x); ok {
 		// every field of every object of type T
 		for _, k := range e.keysOfType(T, false) {
@@ -852,6 +895,16 @@ func (env *SpecEnv) havocLoc(x *SExpr, st *State) error {
 			}
 		}
 		return nil
+	}
+	if x.Op == "id" {
+		if ty, ok := e.L.specs.GhostVars[x.Tok]; ok {
+			T, err := e.L.resolveType(env.pkg, ty)
+			if err != nil {
+				return err
+			}
+			e.heapSet(st, "X:"+x.Tok, scalarSort(T), e.fresh("ghost_"+x.Tok, scalarSort(T)))
+			return nil
+		}
 	}
 	switch x.Op {
 	case "sel":
@@ -951,7 +1004,15 @@ func (env *SpecEnv) typeClause(x *SExpr) (types.Type, bool) {
 func (e *Exec) keysOfModClause(callee *ssa.Function, m Clause, argT ...types.Type) []string {
 	e.argTypes = argT
 	// static approximation used for loop havoc: derive keys from the field name / type
-	x := m.E
+ x := m.E
+	if x.Op == "call" && x.Args[0].Op == "id" && x.Args[0].Tok == "ghost" && len(x.Args) == 2 {
+		return []string{"X:" + x.Args[1].String()}
+	}
+	if x.Op == "id" {
+		if _, ok := e.L.specs.GhostVars[x.Tok]; ok {
+			return []string{"X:" + x.Tok}
+		}
+	}
 	if x.Op == "call" && x.Args[0].Op == "id" && x.Args[0].Tok == "type" && len(x.Args) == 2 && callee != nil && pkgOf(callee) != nil {
 		if T, err := e.L.resolveType(pkgOf(callee).Pkg, x.Args[1].String()); err == nil {
 			return e.keysOfType(T, false)
